@@ -248,13 +248,43 @@ def _class_invariants(c, kind, op, Dm, b, i):
 
 
 def replay(kind):
-    import importlib
+    """native bounded search: concrete instances of the class, all rhs kinds, both sides of max_cholesky_size, compared with
+    torch.linalg.solve on the dense oracle"""
+    import os
+    import sys
 
-    try:
-        m = importlib.import_module("contracts.rtc_C04")
-    except Exception as e:  # noqa
-        return {"reproduced": False, "detail": f"no native family: {e!r}"}
-    return {"reproduced": False, "detail": "see the bounded tier of this check"}
+    repo = os.environ.get("VERIF_REPO", "/repo")
+    if repo not in sys.path:
+        sys.path.insert(0, repo)
+    import torch
+
+    from contracts import zoo
+    import linear_operator
+    from linear_operator import settings
+
+    name = {"Diag": "diag", "ConstantDiag": "constdiag", "Identity": "identity", "Triangular": "tri_lower", "TriangularUpper": "tri_upper", "CholLower": "chol_lower",
+            "CholUpper": "chol_upper", "Dense": "dense_psd", "Sum": "sum", "ConstantMul": "constmul", "Matmul": "psdsum", "AddedDiag": "addeddiag"}.get(kind)
+    if name is None:
+        return {"reproduced": False, "detail": "no native family"}
+    case = zoo.BY_NAME[name]
+    fails = []
+    for batch in ((), (2,)):
+        for n in (2, 4):
+            for mcs in (0, 800):
+                op, dense = case.build(zoo.gen(5), torch.float64, batch, n)
+                g = zoo.gen(6)
+                for rk, B in (("vec", zoo.rn(g, n)), ("mat", zoo.rn(g, n, 3)), ("bmat", zoo.rn(g, *batch, n, 2))):
+                    try:
+                        with settings.max_cholesky_size(mcs), settings.cg_tolerance(1e-10), settings.max_cg_iterations(2000):
+                            X = op.solve(B)
+                        E = torch.linalg.solve(dense, B.unsqueeze(-1) if rk == "vec" else B)
+                        E = E.squeeze(-1) if rk == "vec" else E
+                        if X.shape != E.shape or not torch.allclose(X, E, atol=1e-6, rtol=1e-6):
+                            fails.append(f"{type(op).__name__}{tuple(dense.shape)}.solve(rhs {rk}) with max_cholesky_size={mcs}: differs from torch.linalg.solve on the dense matrix (shape {tuple(X.shape)} vs {tuple(E.shape)})")
+                    except Exception as e:  # noqa
+                        fails.append(f"{type(op).__name__}{tuple(dense.shape)}.solve(rhs {rk}) with max_cholesky_size={mcs} raised {e!r}"[:250])
+    fails = sorted(set(fails))
+    return {"reproduced": bool(fails), "detail": "; ".join(fails[:3]) or "native family shows no deviation"}
 
 
 STRUCTURED = ["Diag", "ConstantDiag", "Identity", "Triangular", "TriangularUpper", "CholLower", "CholUpper"]
